@@ -211,8 +211,30 @@ def generate(r, tier, index):
             scheds.append(spec)
         return {'programs': progs, 'scheds': scheds, 'warm': False, 'home': '/home/u', 'cold': True}
     progs = [_program(r, ti, r.randrange(1, 4)) for ti in range(k)]
-    return {'programs': progs, 'scheds': [_sched_spec(r) for _ in range(n_s)],
-            'warm': r.random() < 0.25, 'home': '/home/u'}
+    sc = {'programs': progs, 'scheds': [_sched_spec(r) for _ in range(n_s)],
+          'warm': r.random() < 0.25, 'home': '/home/u'}
+    # (drawn last: the scenarios of every seed are otherwise what they were before this kind existed)
+    if r.random() < 0.15:
+        # the interpreter turns SyntaxWarning into an error (-W error::SyntaxWarning) and every thread evaluates code the
+        # compiler warns about: whether a thread's build fails must not depend on what the other threads are compiling
+        sc['warn'] = 'error'
+        if r.random() < 0.6:
+            # short programs: the threads reach the compilation of their code at about the same time
+            for p in progs:
+                p['files'] = {}
+                p['ops'] = [{'sources': [{'kind': 'text', 'safe': None, 'fault': None, 'text': '{a: %d, b: [t%d_x, 2]}\n' % (p['ti'], p['ti'])}],
+                             'eval': True, 'continue': False, 'api': 'builder', 'ctxsym': False} for _ in range(r.randrange(1, 3))]
+        for p in progs:
+            for op in p['ops']:
+                op['weval'] = r.choice(['len("\\d") + 1', '(1 is 1, "\\w")[0]', '"\\q"'])
+        for si in range(len(sc['scheds'])):
+            # the window is a few lines of the function that compiles the code: switch there, in every thread
+            if r.random() < 0.7:
+                sc['scheds'][si] = {'policy': 'crit', 'q': r.choice([0.05, 0.15, 0.3]), 'p': r.choice([0.0, 0.0005]),
+                                    'seed': r.getrandbits(32), 'focus': ['eval_node'], 'ext_p': 0, 'novel_p': 0}
+            else:
+                sc['scheds'][si]['novel_p'] = r.choice([0.05, 0.2, 0.35])
+    return sc
 
 
 # ---------------------------------------------------------------------------------------------
@@ -275,6 +297,8 @@ def _client(prog, out):
                     rec['current_file_after'] = b.get_current_file()
                     if op.get('ctxsym') and op['eval']:
                         b.add_source('{ctxprobe: !eval "tsym"}\n', raw_yaml=True)
+                    if op.get('weval') and op['eval']:
+                        b.add_source("{wprobe: !eval '" + op['weval'] + "'}\n", raw_yaml=True)
                     root = b.build()
                     if root is not None:
                         rec['tree'] = observe.tree_records(root)
@@ -318,6 +342,9 @@ def _run(scenario, which, spec):
     fs = simfs.SimFS(files, cwd=CWD, home=scenario.get('home', '/home/u')).install()
     recorder.install()
     recorder.install_slow_modules()
+    if scenario.get('warn') == 'error':
+        import warnings
+        warnings.simplefilter('error', SyntaxWarning)
     if scenario.get('warm'):
         from awesomeyaml.nodes.scalar import ConfigScalar
         for t in (int, float, bool, str, type(None)):
